@@ -98,6 +98,67 @@ def shard_shapes(col, shard, nshards, triples_per_shard):
     R.differential(col, mr, cases, 'E1shape', batch=600)
 
 
+# ---- "a rule's value is always one element of its caller" (implementation only, no model involved) --------------
+RULE_BODIES = {
+    'tok': ('tok', 'a'),
+    'seq': ('seq', [('tok', 'a'), ('tok', 'b')]),
+    'closure': ('rep', False, None, False, ('tok', 'a')),
+    'positive': ('rep', True, None, False, ('tok', 'a')),
+    'join': ('rep', False, ('tok', ','), False, ('tok', 'a')),
+    'optional': ('seq', [('tok', 'a'), ('opt', ('tok', 'b'))]),
+    'named': ('seq', [('named', False, 'n', ('tok', 'a')), ('tok', 'b')]),
+    'override-token': ('seq', [('tok', 'a'), ('over', False, ('tok', 'b'))]),
+    'override-group': ('over', False, ('group', ('seq', [('tok', 'a'), ('tok', 'b')]))),
+    'override-closure': ('over', False, ('rep', False, None, False, ('tok', 'a'))),
+    'override-list': ('seq', [('over', True, ('tok', 'a')), ('over', True, ('tok', 'b'))]),
+    'group': ('group', ('seq', [('tok', 'a'), ('tok', 'b')])),
+    'choice': ('choice', [('seq', [('tok', 'a'), ('tok', 'b')]), ('tok', 'a')]),
+    'const': ('seq', [('tok', 'a'), ('const', 'k')]),
+    'nested-call': ('seq', [('call', 'leaf'), ('call', 'leaf')]),
+}
+
+
+def shard_one_element(col, shard):
+    import tatsu
+    rng = col.rng
+
+    def parse(gtext, t):
+        try:
+            m = R._compiled.get(gtext) or tatsu.compile(gtext)
+            R._compiled[gtext] = m
+            return ('ok', E.canon(m.parse(t)))
+        except tatsu.exceptions.FailedParse:
+            return ('fail', None)
+        except Exception as e:  # noqa
+            return ('exc', type(e).__name__)
+    for kind, body in RULE_BODIES.items():
+        for where in ('first', 'middle', 'last', 'only-with-token'):
+            pre = [] if where in ('first', 'only-with-token') else [('tok', 'x')]
+            post = [] if where == 'last' else [('tok', 'c')]
+            aux = [('r', [], body), ('leaf', [], ('tok', 'a'))]
+            g_plain = {'rules': [('start', [], ('seq', pre + [('call', 'r')] + post))] + aux, 'directives': {}, 'keywords': []}
+            g_named = {'rules': [('start', [], ('seq', pre + [('named', False, 'v', ('call', 'r'))] + post))] + aux, 'directives': {}, 'keywords': []}
+            for _ in range(3):
+                lex = [l for e in pre for l in G.sample_sentence(rng, g_plain, e)] + G.sample_sentence(rng, g_plain, body) + \
+                      [l for e in post for l in G.sample_sentence(rng, g_plain, e)]
+                t = ' '.join(lex)
+                a = parse(E.grammar_text(g_plain), t)
+                b = parse(E.grammar_text(g_named), t)
+                col.case(['one-element', kind, where, t], nontrivial=True)
+                col.count('one-element.compared')
+                if a[0] != 'ok' or b[0] != 'ok':
+                    continue
+                k = len(pre) + 1 + len(post)
+                want_v = b[1]['dict']['v'] if isinstance(b[1], dict) and 'dict' in b[1] else None
+                idx = len(pre)
+                okay = (a[1] == want_v) if k == 1 else (isinstance(a[1], list) and len(a[1]) == k and a[1][idx] == want_v)
+                if not okay:
+                    col.violation(f'oracle:rule-value-not-one-element:{kind}:{"first" if idx == 0 else "later"}',
+                                  f"the value of rule r ({kind}) is not one element of its caller: {a[1]!r} (the value bound by v:r is {want_v!r})",
+                                  {'oracle': 'a rule value is one element of its caller', 'grammar': E.grammar_text(g_plain), 'text': t,
+                                   'result': a[1], 'value_of_r': want_v})
+
+
 # ---- skip-to: targets that do / do not skip whitespace themselves, junk and whitespace before the match ----
 def shard_skipto(col, shard, n):
     mr = ModelRun('Engine')
@@ -178,6 +239,9 @@ def main():
             vlib.run_sharded(chk, shard_skipto, 28, extra=(120,))
             chk.exhaustive = True
         bad = [v for v in chk.violations if v['signature'].startswith('E1')]
+        vlib.run_sharded(chk, shard_one_element, 1, procs=1)
+        chk.obligation("a rule's value is one element of its caller (implementation only)", 'oracle',
+                       not any(v['signature'].startswith('oracle:rule-value') for v in chk.violations))
         chk.obligation('E1: tatsu.compile(g).parse(t) vs modelrun eval (random)', 'correspondence',
                        not any(v['signature'].startswith('E1:') for v in chk.violations))
         chk.obligation('E1x: exhaustive small scope', 'correspondence',
